@@ -110,7 +110,7 @@ def build(gen_src, sidecars, annotate=None, report=None, user_side=None):
     text = ed.apply()
     if user_side is None:
         toks = token_names(gen_src)
-        token_enum = "#[derive(PartialEq, Eq, Copy, Clone)]\npub enum Token { %s }\n" % ", ".join(toks)
+        token_enum = "#[derive(PartialEq, Eq, Copy, Clone, Structural)]\npub enum Token { %s }\n" % ", ".join(toks)
         token_enum += "pub struct Diagnostic { pub _p: u8 }\n"
         cbs = callbacks_impl(gen_src)
     else:
